@@ -12,8 +12,8 @@ Proof. reflexivity. Qed.
 Lemma link_deviation : (C17_Gen.expiryDeviation == 5 # 100)%Q.
 Proof. reflexivity. Qed.
 
-Lemma link_window e : (0 <= e)%Z ->
-  lo_ticks e = Z.to_nat ((e * 95 / 100 - tol) / ns) /\ hi_ticks e = Z.to_nat ((e * 105 / 100 + tol) / ns).
+Lemma link_window I e : (0 <= e)%Z ->
+  lo_ticks I e = Z.to_nat ((e * 95 / 100 - tol) / I) /\ hi_ticks I e = Z.to_nat ((e * 105 / 100 + tol) / I).
 Proof. intros _. split; reflexivity. Qed.
 
 Local Open Scope string_scope.
